@@ -839,7 +839,11 @@ func stampAbove(b []byte, off int) bool {
 func genCase(r *hx.Run, rng *hx.Rng, sub uint64) {
 	rec.Start(r.Case(sub))
 	x := &sess{r: r}
+	// sequences of 65535..65537 elements cost the model seconds each: one script in 12 in the quick tier, one in 40 in the thorough one
 	big_ := rng.Chance(1, 12)
+	if r.Scale > 1 {
+		big_ = rng.Chance(1, 40)
+	}
 	n := rng.Range(1, 7)
 	script := make([]pop, n)
 	for i := range script {
@@ -1024,7 +1028,7 @@ func main() {
 	r.Rule = "scripts of 1..7 Serializer calls (every WriteX, boundary values, prefix-capacity lengths, all array-rule modes) followed by the mirrored " +
 		"Deserializer calls on the produced bytes and on 3 mutated inputs; non-trivial = the write script succeeded; distinct by the produced bytes"
 	r.MaxSamples = 2
-	rec = &refo.Rec{R: r, Layer: "serializer-primitives"}
+	rec = &refo.Rec{R: r, Layer: "serializer-primitives", Keep: func(op string) bool { return strings.HasPrefix(op, "w ") }}
 	if lines := r.ReplayLines(); lines != nil {
 		rec.Start(r.Case(0))
 		x := &sess{r: r}
